@@ -358,6 +358,37 @@ pub fn fork_sweep(w: &Worker, p: &SPos, case: &Case, at_clock: bool, stride: u64
     }
 }
 
+/// Repetition bait: the game history is arranged so that the engine's own preferred first move
+/// re-enters a position that already occurred (P, m, r, m-back, r-back with m the engine's depth-1
+/// choice at P). Searches and their reported lines then walk into repeated positions.
+pub fn repetition_bait(p: &SPos) -> Option<Vec<String>> {
+    let base = spos::hist(p);
+    let (board, pos, _) = searchrun::open(p.fen, &base).ok()?;
+    let first = case_for(p, &Limits { depth: Some(1), ..Default::default() }, Cut::ClockNever);
+    let out = searchrun::run(&board, &first, &Opts { clear_cache: true, observe: false, neutral: false });
+    let m = out.best?;
+    let reversible = |q: &Pos, u: &str| -> Option<(Pos, String)> {
+        let mv = q.legal_moves().into_iter().find(|x| x.uci() == u)?;
+        if mv.captured != 0 || mv.piece.abs() == 1 || mv.castle || mv.promo != 0 {
+            return None;
+        }
+        let back = format!("{}{}", &u[2..4], &u[0..2]);
+        Some((q.make(&mv), back))
+    };
+    let (p1, m_back) = reversible(&pos, &m)?;
+    for r in p1.legal_moves() {
+        let Some((p2, r_back)) = reversible(&p1, &r.uci()) else { continue };
+        let Some((p3, _)) = reversible(&p2, &m_back) else { continue };
+        let Some((p4, _)) = reversible(&p3, &r_back) else { continue };
+        if p4.ident() == pos.ident() {
+            let mut h = base.clone();
+            h.extend([m.clone(), r.uci(), m_back.clone(), r_back.clone()]);
+            return Some(h);
+        }
+    }
+    None
+}
+
 /// Game sessions: the engine plays against itself from a start position, one `go depth d` per
 /// ply, and the cache is kept for the whole game (as in a real UCI session, where it is never
 /// cleared). Every search is handed to `judge` with the position it was started from.
@@ -444,6 +475,21 @@ pub fn c14_worker(args: &Args, w: &Worker) -> i32 {
             let out2 = searchrun::run(&board, &c, &keep);
             w.count("depth_limited_searches", 1);
             report(w, &c, p, &pos, &out2, Some(n as i64), "kept-cache");
+        }
+        // the same position with a history in which the engine's preferred move repeats a position
+        if let Some(h) = repetition_bait(p) {
+            if let Ok((b2, pos2, _)) = searchrun::open(p.fen, &h) {
+                for n in 1..=4u128 {
+                    let l = Limits { depth: Some(n), ..Default::default() };
+                    let c = Case { fen: p.fen.to_string(), history: h.clone(), limits: l, max_depth: Some(n as u8), cut: Cut::ClockNever, elapsed_ms: None };
+                    for opts in [&fresh, &keep] {
+                        let out = searchrun::run(&b2, &c, opts);
+                        w.count("depth_limited_searches", 1);
+                        w.count("searches_with_repetition_bait", 1);
+                        report(w, &c, p, &pos2, &out, Some(n as i64), "bait");
+                    }
+                }
+            }
         }
         // node- and time-limited searches: ordering, grammar and PV clauses at every cut point
         let base = searchrun::run(&board, &case_for(p, &Limits { depth: Some(3), ..Default::default() }, Cut::ClockNever), &fresh);
